@@ -161,6 +161,8 @@ def monitor(c):
 
 
 def run(ctx, out):
+    import families as _famsm
+    out.evaluations += _famsm.struct_mapping_family(out, PROP)
     out.rule = ('rejected (type, value) pairs; the error tree is walked top-down and every product / sum node is compared with the '
                 'element converters run alone on the sub-values: children keys = positions or keys rejected on their own, each child '
                 'equal to the element tree, missing / extra exact, one union child per member in order, leaves record the sub-value. '
